@@ -117,4 +117,9 @@ theorem Approx.add {a' a A b' b B c : Rat} (ha : Approx a' a A c) (hb : Approx b
     grind
   · have := ab_add a b; have := ha.mag; have := hb.mag; grind
 
+/-- `(*ConversionFactors).ConvertReading` with each floating-point operation rounded by `R`:
+    `mX := int64(M) * int64(raw)` (exact), `b10k1 := float64(B) * math.Pow10(K1)`, `(float64(mX) + b10k1) * math.Pow10(K2)` -/
+def convertFloat (R : Rounding) (M B K1 K2 x : Int) : Rat :=
+  R.rnd (R.rnd ((M : Rat) * (x : Rat) + R.rnd ((B : Rat) * R.rnd ((10 : Rat) ^ K1))) * R.rnd ((10 : Rat) ^ K2))
+
 end Bmc.FloatModel
